@@ -141,5 +141,4 @@ def run(ctx):
 
 
 def replay(ctx, path):
-    print(open(path).read())
-    return 0
+    return core.generic_replay(ctx, path, run)
